@@ -8,12 +8,14 @@
       use the same clip_inf.
  R14c the four _integer_approximation clones agree on the facts that bound scale, shift and
       the 32-bit scaled bias.
+ R14i graph rewrite: remove_relu replaces every ReLU spelling the graph passes support.
  R14d use-after-overwrite / axis consistency in the dilation handling.
  R14f weights are integerised (dequantize switched off first) before the weight scale is
       read; the bias is integerised with (s_x, s_w).
 """
 from __future__ import annotations
 
+import ast
 from typing import Dict, List, Optional, Tuple
 
 from .. import poly
@@ -564,7 +566,51 @@ def r14f(ctx, classes):
                        'dequantize switched off first', where(init))
 
 
+def r14i(ctx):
+    """Graph rewrite 'ReLUs removed': the integer layers implement the ReLU as their clip, and
+    MAUPITI activations are offset-signed (a surviving ReLU clamps every activation below
+    half the range to 0).  Every spelling of the plain ReLU that the library supports as a graph
+    op -- the function targets and module classes named in graph/inspection.py whose name is
+    relu / ReLU -- must be among the ones remove_relu replaces."""
+    repo = ctx.repo
+    insp = repo.modules['plinio.graph.inspection']
+    sup_f, sup_m = set(), set()
+    # every mention counts, however the predicates are written (comparison chains, tuples of
+    # targets, isinstance tests, module-level tables)
+    for n in ast.walk(insp.tree):
+        if isinstance(n, (ast.Attribute, ast.Name)) and isinstance(n.ctx, ast.Load):
+            q = repo.resolve_expr_name(insp, n)
+            q = repo.canonical(q) if q else None
+            if q and q.startswith('torch.'):
+                if q.rsplit('.', 1)[-1] == 'relu':
+                    sup_f.add(q)
+                elif q.rsplit('.', 1)[-1] == 'ReLU':
+                    sup_m.add(q)
+    ctx.floor('R14i', 'ReLU spellings supported by the graph passes', len(sup_f) + len(sup_m), 3)
+    rr = repo.fn('backends.base.remove_relu')
+    rem_f, rem_m = set(), set()
+    for p in paths(repo, rr, keep=('is_function', 'is_layer', 'is_inherited_layer')):
+        for a, v in p.assumptions:
+            for x in subterms(a):
+                if is_call(x, 'is_function') and len(x[2]) >= 2:
+                    rem_f |= {repo.canonical(y[1]) for y in subterms(x[2][1]) if y[0] == 'global'}
+                if is_call(x, 'is_layer', 'is_inherited_layer', 'builtins.isinstance') and \
+                        len(x[2]) >= 2:
+                    rem_m |= {repo.canonical(y[1]) for y in subterms(x[2][-1])
+                              if y[0] == 'global'}
+    missing = sorted((sup_f - rem_f) | (sup_m - rem_m))
+    ctx.ob('R14i', 'remove_relu removes every supported ReLU spelling', not missing,
+           f'functions {sorted(x.replace("torch.nn.functional", "F") for x in sup_f)} and modules '
+           f'{sorted(sup_m)} are all replaced' if not missing else
+           f'{missing} is a ReLU the graph passes support but remove_relu leaves in the integer '
+           f'graph (it removes {sorted(rem_f | rem_m)}): MAUPITI activations are offset-signed, so '
+           f'the surviving ReLU clamps every activation below half the clip value to 0 and the '
+           f'next integer layer no longer receives the integer image of its counterpart\'s input',
+           where(rr))
+
+
 def run(ctx):
+    r14i(ctx)
     classes = backend_classes(ctx)
     ctx.floor('C14', 'back-end layer classes', len(classes), 4)
     r14a(ctx, classes)
